@@ -54,7 +54,8 @@ where
         };
 
         let low_ptype_bits: u8 = reader.read_bits(5)?;
-        let mut r#type = if low_ptype_bits & 0x10 != 0 {
+        // PTYPE bit 9: "0" INTRA (I-picture), "1" INTER (P-picture)
+        let mut r#type = if low_ptype_bits & 0x10 == 0 {
             PictureTypeCode::IFrame
         } else {
             PictureTypeCode::PFrame
